@@ -19,6 +19,8 @@ func C09(c *core.Ctx) {
 		cx(false, &Will{"w", "", 2, false}),
 		cx(false, nil),
 		cx(true, &Will{"w/x", "bye5", 2, true}),
+		// keep-alive 0 (the broker rewrites the CONNECT it stores), credentials behind an empty will payload
+		{Kind: "connect", Client: "X", Opts: ConnectOpts{ClientID: "a", Clean: false, KeepAlive: 0, Will: &Will{"w/x", "", 1, true}, User: "alice", Pass: "secret"}},
 		{Kind: "disconnect", Client: "X"}, {Kind: "cut", Client: "X"},
 		{Kind: "raw", Client: "X", Raw: []byte{0xF0, 0x00}, RawDesc: "reserved packet type 15"},
 		{Kind: "raw", Client: "X", Raw: []byte{0xE1, 0x00}, RawDesc: "DISCONNECT with a reserved flag set"},
@@ -38,7 +40,7 @@ func C09(c *core.Ctx) {
 			sub("W", 1, "#", 2)},
 		CrashIsViolation: false}
 	// Z must not time out either
-	ops[13].Opts.KeepAlive = 65535
+	ops[14].Opts.KeepAlive = 65535
 	spec.Search(c)
 	if c.HasViolation() || c.Expired() {
 		return
